@@ -593,6 +593,16 @@ def _emit_auto_helpers(unit, files, src_of, rules, rel, tline):
                 for sub in it.sub:
                     if sub.kind == "fn" and sub.body_open is not None:
                         cands.append((f, src, it, sub))
+    # module-level integer constants the extracted bodies mention but the unit does not define (a constant a change introduced):
+    # copied in with their own value (`static` -> `const`, as rule R36); anything that is not an integer constant expression is left alone
+    text = "\n".join(unit.out_lines)
+    for f in files:
+        src = src_of(f)
+        for m in re.finditer(r"(?m)^(?:pub(?:\([^)]*\))?\s+)?(?:const|static)\s+([A-Z][A-Z0-9_]*)\s*:\s*(u8|u16|u32|u64|usize|i32|i64)\s*=\s*([0-9_xa-fA-F\s()<>*+\-]+?)\s*;", src):
+            nm, ty, val = m.group(1), m.group(2), " ".join(m.group(3).split())
+            if re.search(r"\b%s\b" % nm, text) and not re.search(r"\b(?:const|static)\s+%s\b" % nm, text):
+                unit.emit("pub const %s: %s = %s;" % (nm, ty, val), {"kind": "gen", "file": "<auto-extracted constant %s from %s:%d>" % (nm, f, _line_of(src, m.start())), "line": 0})
+                unit.auto_consts = getattr(unit, "auto_consts", []) + [{"name": nm, "type": ty, "value": val, "file": f, "line": _line_of(src, m.start())}]
     for _round in range(6):
         text = "\n".join(unit.out_lines)
         defined = set(re.findall(r"\bfn\s+(\w+)", text))
